@@ -26,6 +26,10 @@ func main() {
 	switch id {
 	case "C01":
 		runC01(*tier, *seed, out)
+	case "C13":
+		runC13(*tier, *seed, out)
+	case "C17":
+		runC17(*tier, *seed, out)
 	default:
 		fmt.Fprintln(os.Stderr, "unknown id", id)
 		os.Exit(2)
